@@ -211,3 +211,94 @@ theorem step_inv (a : List Nat) (B : List Nat) (y : Nat) (v e : BitVec 64)
       by_cases hD : P a (i+1) B = P a i B + 1 <;> by_cases hH : P a i (y :: B) = P a i B + 1 <;> simp [hD, hH] <;> omega
   · have : a[i]? = none := by simp; omega
     simp [he i hi, this, hv i hi, hia]
+
+/-! ### closing the argument: initial row, fold over `b`, zero count -/
+
+/-- position array spec: bit i of `pa c` is set iff `a[i] = c` -/
+def PaSpec (a : List Nat) (pa : Nat → BitVec 64) : Prop :=
+  ∀ c i, i < 64 → (pa c).getLsbD i = decide (a[i]? = some c)
+
+def rows (pa : Nat → BitVec 64) (b : List Nat) : BitVec 64 :=
+  b.foldl (fun v c => step v (pa c)) (BitVec.allOnes 64)
+
+def zeroCount (v : BitVec 64) : Nat := ((List.range 64).filter (fun i => !v.getLsbD i)).length
+
+def editDistance (pa : Nat → BitVec 64) (len : Nat) (b : List Nat) : Nat :=
+  len + b.length - 2 * zeroCount (rows pa b)
+
+theorem lcs_nil_right (a : List Nat) : lcs a [] = 0 := by cases a <;> simp [lcs]
+
+theorem rowInv_init (a : List Nat) : RowInv a [] (BitVec.allOnes 64) := by
+  intro i hi
+  rw [BitVec.getLsbD_allOnes]
+  simp [P, hi, lcs_nil_right]
+
+theorem rows_inv (a : List Nat) (pa : Nat → BitVec 64) (hpa : PaSpec a pa) (hm : a.length ≤ 64) :
+    ∀ (b : List Nat) (B : List Nat) (v : BitVec 64), RowInv a B v →
+      RowInv a (b.reverse ++ B) (b.foldl (fun v c => step v (pa c)) v) := by
+  intro b
+  induction b with
+  | nil => intro B v h; simpa using h
+  | cons y ys ih =>
+    intro B v h
+    have h' := step_inv a B y v (pa y) h (hpa y) hm
+    have := ih (y :: B) _ h'
+    simpa [List.foldl] using this
+
+/-- number of i < n with the vertical difference equal to 1 telescopes to `P a n B` -/
+theorem count_telescope (a B : List Nat) :
+    ∀ n, n ≤ a.length →
+      ((List.range n).filter (fun i => decide (P a (i+1) B = P a i B + 1))).length = P a n B := by
+  intro n
+  induction n with
+  | zero => intro _; simp [P_zero]
+  | succ n ih =>
+    intro hn
+    have ih := ih (by omega)
+    have ⟨v1, v2⟩ := P_vert a n (by omega) B
+    rw [List.range_succ, List.filter_append, List.length_append, ih]
+    by_cases h : P a (n+1) B = P a n B + 1
+    · simp [h]
+    · simp [h]; omega
+
+theorem zeroCount_eq (a B : List Nat) (v : BitVec 64) (hm : a.length ≤ 64) (hv : RowInv a B v) :
+    zeroCount v = P a a.length B := by
+  unfold zeroCount
+  rw [← count_telescope a B a.length (Nat.le_refl _)]
+  -- split range 64 = range m ++ [m, 64)
+  have hsplit : List.range 64 = List.range a.length ++ (List.range' a.length (64 - a.length)) := by
+    rw [List.range_eq_range', List.range_eq_range']
+    have := @List.range'_append_1 0 a.length (64 - a.length)
+    rw [Nat.zero_add] at this
+    rw [this]; congr 1; omega
+  rw [hsplit, List.filter_append, List.length_append]
+  have h1 : (List.range a.length).filter (fun i => !v.getLsbD i)
+          = (List.range a.length).filter (fun i => decide (P a (i+1) B = P a i B + 1)) := by
+    apply List.filter_congr
+    intro i hi
+    have hi' : i < a.length := by simpa using hi
+    rw [hv i (by omega)]
+    simp [hi']
+  have h2 : (List.range' a.length (64 - a.length)).filter (fun i => !v.getLsbD i) = [] := by
+    apply List.filter_eq_nil_iff.mpr
+    intro i hi
+    have := List.mem_range'_1.mp hi
+    rw [hv i (by omega)]
+    simp; omega
+  rw [h1, h2]; simp
+
+theorem editDistance_eq_lcs (a b : List Nat) (pa : Nat → BitVec 64)
+    (hpa : PaSpec a pa) (hm : a.length ≤ 64) :
+    editDistance pa a.length b = a.length + b.length - 2 * lcs a b := by
+  unfold editDistance rows
+  have hinv := rows_inv a pa hpa hm b [] _ (rowInv_init a)
+  rw [zeroCount_eq a _ _ hm hinv]
+  simp only [List.append_nil, P, List.take_length]
+  rw [lcs_reverse]
+
+theorem editDistance_symm (a b : List Nat) (pa pb : Nat → BitVec 64)
+    (hpa : PaSpec a pa) (hpb : PaSpec b pb) (ha : a.length ≤ 64) (hb : b.length ≤ 64) :
+    editDistance pa a.length b = editDistance pb b.length a := by
+  rw [editDistance_eq_lcs a b pa hpa ha, editDistance_eq_lcs b a pb hpb hb, lcs_comm a b]; omega
+
+#print axioms editDistance_eq_lcs
